@@ -117,6 +117,19 @@ Theorem C20_two_pass_around_a_rounded_mean c l : l <> [] ->
 Proof. exact (two_pass_centre c l). Qed.
 Print Assumptions C20_two_pass_around_a_rounded_mean.
 
+(* rounding (standard model, |fl(x) - x| <= u |x|): the computed sum of squared deviations around a centre c - deviations
+   rounded, squares rounded, added up in ANY bracketing t of height h - is within E_{u3}(h+1) * (S + n delta^2) + n delta^2 of
+   the exact S = sum (x - mean)^2, where delta = c - mean and u3 = (1+u)^3 - 1: first order in the variance, and the offset of
+   the data enters only through the square of the rounding error of the mean *)
+From GL Require Proofs.VarFloat Proofs.VarTwoPass.
+Theorem C20_two_pass_rounding u rnd c t xs : (0 <= u)%Q ->
+  (forall x B, (- B <= x <= B)%Q -> (- (u * B) <= rnd x - x <= u * B)%Q) -> xs <> [] -> VarTwoPass.dev_tree rnd c t xs ->
+  let S := qsum (map (fun x => qsq (x - qmean xs)) xs) in
+  let nd2 := (qlen xs * qsq (c - qmean xs))%Q in
+  VarFloat.near (VarFloat.fl rnd t) S (VarFloat.E (VarTwoPass.u3 u) (Datatypes.S (VarFloat.height t)) * (S + nd2) + nd2)%Q.
+Proof. intros Hu Hr. exact (VarTwoPass.two_pass_error u Hu rnd Hr c t xs). Qed.
+Print Assumptions C20_two_pass_rounding.
+
 (* Tie B: nanmean / nanvar / nanstd (and mean_from_sum_count) read, statement by statement, as the model assumes *)
 Theorem C20_moments_are_the_source's : Gen.TablesGen.gen_nanops_moments = nanops_moments.
 Proof. exact tie_nanops_moments. Qed.
